@@ -49,7 +49,7 @@ m = {
  "version": 1,
  "setup_cmd": "bin/check setup",
  "hooks": {"guard": "verif", "enable": "no hooks in /repo: every seam the simulator needs is public API (interceptors, operator constructors, ast.Node implementations); checks build /repo's working tree through a replace directive",
-           "baseline_off_cmd": "cd /repo && go test -vet=off -count=1 ./...", "source_commits": [], "add_only": True},
+           "baseline_off_cmd": "cd /repo && GOFLAGS=-mod=mod GOPROXY=off GOSUMDB=off go test -vet=off -count=1 ./...", "source_commits": [], "add_only": True},
  "engines": [
    {"name":"mapsim","path":"sim/engines/mapsim","serves_properties":["C09"],"kind_free_text":"seeded operation histories on the real SourceMapper vs reference model and independent decoder"},
    {"name":"faultsim","path":"sim/engines/faultsim","serves_properties":["C11","C12"],"kind_free_text":"fault injector over stored source text: every token deletion, separator removal, truncation offset; byte corruption"},
